@@ -379,8 +379,10 @@ PROPS = {
                 "failed and more than one command Half of the cases first run another operation with its own operation-level list (and sometimes stop-on-failed) on the same driver: nothing of it may carry over.",
         "trusted_base": ["exchange with the device abstracted as (command, output) pairs in the C13 theorems; "
                          "the exchange itself is C01's subject"],
-        "level_text": "C13_scan_is_source / C13_record_is_source: util.StringContainsAnySubStrs and Response.Record AS TRANSLATED FROM THE "
-                      "SOURCE ON THIS RUN compute the model's scan and failure mark, for every string and list (induction over the loop). "
+        "level_text": "C13_scan/_record/_append/_send_command_fws/_send_commands/_send_config _is_source: StringContainsAnySubStrs, "
+                      "Response.Record, MultiResponse.AppendResponse, sendCommand, SendCommands and SendConfig AS TRANSLATED FROM THE "
+                      "SOURCE ON THIS RUN compute the model's scan, failure mark, aggregate, list in force, stop-on-failed loop and collapse, "
+                      "for every string, list and failure pattern (induction over the loops). "
                       "Theorems C13_failed_iff/_failed_first/_precedence/_multi/_nostop/_stop/_collapse over the model of "
                       "Response.Record, MultiResponse.AppendResponse, sendCommand/SendCommands and SendConfig's collapse hold for all "
                       "outputs, lists and command sequences (list induction, no bound); the model is tied to the code by running "
